@@ -98,6 +98,14 @@ func zzC07Negotiate() {
 	}
 	modernOK := kind == 0 || kind == 3 // 2026-07-28 is never served over SSE or a stateful HTTP endpoint
 	env.ss = &ServerSession{server: srv, supportedVersions: filterSupportedVersions(t)}
+	// what a session (and every discover answer built from it) holds is its own list: code that edits it — a
+	// middleware trimming the versions it advertises — must not be editing the SDK's table for every other session
+	if sv := env.ss.supportedVersions; len(sv) > 0 {
+		keep := sv[0]
+		sv[0] = "edited-by-a-middleware"
+		vAssert(supportedProtocolVersions[0] != "edited-by-a-middleware", "C07.session-version-list-is-not-the-sdk-table")
+		sv[0] = keep
+	}
 
 	c := NewClient(&Implementation{Name: "c", Version: "v"}, nil)
 	c.sendingMethodHandler_ = zzC07Router
